@@ -56,8 +56,8 @@ var c24Endpoints = []string{
 
 type c24Req struct {
 	Endpoint string `json:"endpoint"`
-	Key      string `json:"key"`              // the key the client sends ("" = no key header at all)
-	Short    bool   `json:"short,omitempty"`  // /1/ endpoints only: send the key in X-Hny-Team
+	Key      string `json:"key"`               // the key the client sends ("" = no key header at all)
+	Short    bool   `json:"short,omitempty"`   // /1/ endpoints only: send the key in X-Hny-Team
 	NoTrace  bool   `json:"notrace,omitempty"` // /1/ endpoints and logs: event without a trace id (goes upstream directly, not through the collector)
 	Msgpack  bool   `json:"msgpack,omitempty"` // /1/ endpoints: msgpack body
 }
